@@ -27,7 +27,7 @@ from spacepackets.uslp.header import PrimaryHeader, TruncatedPrimaryHeader, Sour
 NO_SEG = SegmentationControl.NO_RECORD_BOUNDARIES_PRESERVATION
 
 
-def earlier_result_survives(unpack, raw1, raw2):
+def earlier_result_survives(unpack, raw1, raw2, whole_packet=True):
     """decode raw1, remember everything about the result, decode raw2, look at the first result again"""
     r1 = unpack(raw1)
     octets1 = r1.pack()          # (packing first: some classes cache their generic TLV form when packed)
@@ -35,6 +35,8 @@ def earlier_result_survives(unpack, raw1, raw2):
     r2 = unpack(raw2)
     ensures("earlier-result-unchanged", same_state(r1, snap, ignore=("_crc16",)))
     ensures("earlier-result-repacks", r1.pack() == octets1)
+    if whole_packet and hasattr(r1, "packet_len"):     # (a header's packet_len is that of the packet it announces, not its own)
+        ensures("earlier-result-length", r1.packet_len == len(octets1))
     ensures("results-are-distinct-objects", not is_same(r1, r2))
     ensures("second-result-own-octets", r2.pack() == unpack(raw2).pack())
 
@@ -69,10 +71,10 @@ def ind_small(u1: IntRange(0, 4294967295), u2: IntRange(0, 4294967295), day1: In
               ms1: IntRange(0, 86399999), ms2: IntRange(0, 86399999), h1: BytesLen(6, 6), h2: BytesLen(6, 6)):
     earlier_result_survives(RequestId.unpack, be(4, u1), be(4, u2))
     earlier_result_survives(CdsShortTimestamp.unpack, CdsShortTimestamp(day1, ms1).pack(), CdsShortTimestamp(day2, ms2).pack())
-    earlier_result_survives(SpacePacketHeader.unpack, h1, h2)
+    earlier_result_survives(SpacePacketHeader.unpack, h1, h2, whole_packet=False)
 
 
-@obligation(["C09", "C06"], "independence/scalar-directives")
+@obligation(["C09", "C06", "C11", "C05"], "independence/scalar-directives")
 def ind_directives(crc1: EnumOf(CrcFlag), crc2: EnumOf(CrcFlag), large1: EnumOf(LargeFileFlag), large2: EnumOf(LargeFileFlag),
                    size1: IntRange(0, 4294967295), size2: IntRange(0, 4294967295), cc1: Choice(0, 4, 15), cc2: Choice(0, 7)):
     c1 = conf_of(crc1, large1, 1)
@@ -85,7 +87,7 @@ def ind_directives(crc1: EnumOf(CrcFlag), crc2: EnumOf(CrcFlag), large1: EnumOf(
     earlier_result_survives(KeepAlivePdu.unpack, KeepAlivePdu(c1, size1).pack(), KeepAlivePdu(c2, size2).pack())
 
 
-@obligation(["C09", "C06", "C07"], "independence/list-directives-and-file-data")
+@obligation(["C09", "C06", "C07", "C11"], "independence/list-directives-and-file-data")
 def ind_lists(crc1: EnumOf(CrcFlag), crc2: EnumOf(CrcFlag), large: EnumOf(LargeFileFlag), a: IntRange(0, 4294967295), b: IntRange(0, 4294967295),
               data1: BytesLen(0, 8), data2: BytesLen(0, 8)):
     c1 = conf_of(crc1, large, 1)
